@@ -28,7 +28,7 @@ MUTANTS = [
      "no trailing comma when a tuple shrinks to one element"),
     ("M06", S + "_adapter/dict_adapter.py", "            if key not in new_value:\n                # delete entries\n                yield Delete(\"fix\"", "            if False:\n                # delete entries\n                yield Delete(\"fix\"", ["C02", "C05"],
      "vanished dict keys are not deleted"),
-    ("M07", S + "_snapshot/generic_value.py", "        if flags.fix or flags.create or flags.update or self._old_value is undefined:\n            return new_result", "        if flags.create or flags.update or self._old_value is undefined:\n            return new_result", ["C02"],
+    ("M07", S + "_snapshot/generic_value.py", "        if flags.fix or flags.create or flags.update or self._old_value is undefined:\n            return new_result", "        if flags.create or flags.update or self._old_value is undefined:\n            return new_result", ["C02", "C09"],
      "fix does not let the comparison succeed: later sites are not reached"),
     ("M08", S + "_rewrite_code.py", "        return line_numbers.line_to_offset(self.lineno, self.col_offset)", "        return line_numbers.from_utf8_col(self.lineno, self.col_offset) + line_numbers.line_to_offset(self.lineno, 0)", ["C03"],
      "columns treated as utf8 byte columns"),
